@@ -686,17 +686,52 @@ where
 
     fn try_reallocate(&mut self, new_capacity: usize) -> Result<(), TryReserveError> {
         let hasher = make_hasher(&self.hash_builder);
-        let mut old_table = RawTable::try_with_capacity(new_capacity)?;
-        mem::swap(&mut self.table, &mut old_table);
+        let new_capacity = new_capacity.max(self.len());
+        let mut new_table = RawTable::try_with_capacity(new_capacity)?;
 
-        for entry in old_table.into_iter() {
-            let mut prev_entry = entry.prev;
-            let mut next_entry = entry.next;
-            let bucket = self.table.insert(hasher(&entry), entry, &hasher);
-            let entry_ptr = EntryPtr::new(bucket.as_ptr());
-            prev_entry.get_mut().next = entry_ptr;
-            next_entry.get_mut().prev = entry_ptr;
+        // Build the relocated list in the new table from bitwise copies of
+        // the entries, from least to most recently used. Hashing runs user
+        // code which may panic. Until every entry has been copied neither the
+        // table nor the list of this cache is modified, so in that case only
+        // the allocation of the new table is freed and the cache is intact.
+
+        let seal = self.seal;
+        let mut lru = seal;
+        let mut newest = seal;
+        let mut old = seal.get().prev;
+
+        while old != seal {
+            let hash = hasher(old.get());
+            let mut entry = unsafe { old.read() };
+            old = entry.prev;
+            entry.next = newest;
+
+            let entry_ptr = match new_table.try_insert_no_grow(hash, entry) {
+                Ok(bucket) => EntryPtr::new(bucket.as_ptr()),
+                Err(_) => unreachable!("new table has insufficient capacity")
+            };
+
+            if newest == seal {
+                lru = entry_ptr;
+            }
+            else {
+                newest.get_mut().prev = entry_ptr;
+            }
+
+            newest = entry_ptr;
         }
+
+        // No user code runs from here on: close the new list around the seal
+        // and swap the tables. The old table only holds moved-out entries.
+
+        if newest != seal {
+            newest.get_mut().prev = seal;
+            self.seal.get_mut().next = newest;
+            self.seal.get_mut().prev = lru;
+        }
+
+        mem::swap(&mut self.table, &mut new_table);
+        new_table.clear_no_drop();
 
         Ok(())
     }
